@@ -273,10 +273,13 @@ def g_signal(rng, cmd=None, descs=None, pf=None, canonical=False):
     stuff = b"" if canonical or rng.random() < 0.8 else g_bytes(rng, rng.randrange(1, 6))
     legacy = 0 if canonical else int(rng.random() < 0.15)
     sap = 3 if canonical or rng.random() < 0.8 else rng.randrange(4)
+    api = canonical and rng.random() < 0.5
     if canonical:
         descs = [d for d in descs if d[0] == 1] + [d for d in descs if d[0] == 0]
-    s = [ptr, 0xFC, 0, 0, sap, rng.choice([0, 0, 1, 255]), 0, rng.choice([0, 0, 1, 63, rng.randrange(64)]), adj,
-         rng.choice([0, 255, rng.randrange(256)]), tier, legacy, cmd, descs, stuff, rng.randrange(1 << 32)]
+    if api:   # expressible through the creation + setter API: no foreign descriptors, fixed-part fields at their defaults
+        descs = [d for d in descs if d[0] == 0]
+    s = [ptr, 0xFC, 0, 0, sap, 0 if api else rng.choice([0, 0, 1, 255]), 0, 0 if api else rng.choice([0, 0, 1, 63, rng.randrange(64)]), adj,
+         0 if api else rng.choice([0, 255, rng.randrange(256)]), tier, legacy, cmd, descs, stuff, rng.randrange(1 << 32)]
     return s
 
 
